@@ -364,7 +364,7 @@ inst!(it_swar1_step, [props=C06+C14 xprops=C05 tier=quick cfg=x86std t=1500 role
 inst!(it_swar3_step, [props=C06 xprops=C05+C14 tier=quick cfg=x86std t=1500 role=swar-iter-step uw=oracle::count:26;Three::find_raw.0:4;Three::rfind_raw.0:4;byte_by_byte:10], 10, bytes::swar_step::<31>(3, 24));
 inst!(it_swar2_step, [props=C06 xprops=C05+C14 tier=thorough cfg=x86std t=1500 role=swar-iter-step uw=oracle::count:26;Two::find_raw.0:4;Two::rfind_raw.0:4;byte_by_byte:10], 10, bytes::swar_step::<31>(2, 24));
 inst!(it_seq_top_8x3, [props=C06 xprops=C14 tier=thorough cfg=x86std t=1500 role=iter-call-sequences uw=@MEMCHR;sequence:10;oracle::count:10], 3, bytes::sequence::<8, 3>(0));
-inst!(it_seq_top_10x4, [props=C06 xprops=C14 tier=thorough cfg=x86std t=5400 role=iter-call-sequences uw=@MEMCHR;sequence:12;oracle::count:12], 3, bytes::sequence::<10, 4>(0));
+inst!(it_seq_top_10x4, [props=C06 xprops=C14 tier=manual cfg=x86std t=5400 role=iter-call-sequences uw=@MEMCHR;sequence:12;oracle::count:12], 3, bytes::sequence::<10, 4>(0));
 inst!(it_seq_swar_8x3, [props=C06 xprops=C14 tier=thorough cfg=x86std t=1500 role=iter-call-sequences uw=@MEMCHR;sequence:10;oracle::count:10], 3, bytes::sequence::<8, 3>(1));
 inst!(it_seq_swar_10x4, [props=C06 xprops=C14 tier=thorough cfg=x86std t=5400 role=iter-call-sequences uw=@MEMCHR;sequence:12;oracle::count:12], 3, bytes::sequence::<10, 4>(1));
 inst!(it_seq_sse2_18x2, [props=C06 xprops=C14 tier=thorough cfg=x86std t=1500 role=iter-call-sequences uw=@MEMCHR;sequence:20;oracle::count:20], 3, bytes::sequence::<18, 2>(2));
